@@ -198,7 +198,18 @@ macro_rules! fty {
 macro_rules! rec_one {
     ($name:literal, $T:ident, $S:ty, { $($f:ident : [$($C:ident)?]),+ }, [$($id:expr),*]) => {
         impl Subject for $T<$S> {
-            fn identity(out: &mut Vec<i64>) { out.extend_from_slice(&[$($id),*]); }
+            fn identity(out: &mut Vec<i64>) {
+                // the list is per leaf for scalar components; for aggregate components fall back
+                // to the components' own identities
+                let list: &[i64] = &[$($id),*];
+                let mut k = Vec::new();
+                <Self as Subject>::gen_kinds(&mut k);
+                if k.len() == list.len() {
+                    out.extend_from_slice(list);
+                } else {
+                    $(<fty!($($C)?; $S) as Subject>::identity(out);)+
+                }
+            }
             fn type_name() -> String { format!("{}<{}>", $name, <$S as Subject>::type_name()) }
             fn shape() -> Shape { Shape::Rec(vec![$((stringify!($f), <fty!($($C)?; $S) as Subject>::shape())),+]) }
             fn gen_kinds(out: &mut Vec<(Kind, GenClass)>) { $(<fty!($($C)?; $S) as Subject>::gen_kinds(out);)+ }
@@ -217,12 +228,12 @@ macro_rules! rec {
 }
 
 rec!("Vector1", Vector1, [f32, f64, i8, i16, i32, i64, u8, u16, u32, u64], { x: [] }, [0]);
-rec!("Vector2", Vector2, [f32, f64, i8, i16, i32, i64, u8, u16, u32, u64, isize, usize, i128, u128, Rad<f32>], { x: [], y: [] }, [0, 0]);
-rec!("Vector3", Vector3, [f32, f64, i8, i16, i32, i64, u8, u16, u32, u64, isize, usize, i128, u128, Rad<f32>, Deg<f64>], { x: [], y: [], z: [] }, [0, 0, 0]);
+rec!("Vector2", Vector2, [f32, f64, i8, i16, i32, i64, u8, u16, u32, u64, isize, usize, i128, u128, Rad<f32>, Quaternion<f64>, Vector2<f64>], { x: [], y: [] }, [0, 0]);
+rec!("Vector3", Vector3, [f32, f64, i8, i16, i32, i64, u8, u16, u32, u64, isize, usize, i128, u128, Rad<f32>, Deg<f64>, Matrix2<f32>], { x: [], y: [], z: [] }, [0, 0, 0]);
 rec!("Vector4", Vector4, [f32, f64, i8, i16, i32, i64, u8, u16, u32, u64, Rad<f64>], { x: [], y: [], z: [], w: [] }, [0, 0, 0, 0]);
-rec!("Point1", Point1, [f32, f64, i8, i16, i32, i64, u8, u16, u32, u64], { x: [] }, [0]);
-rec!("Point2", Point2, [f32, f64, i8, i16, i32, i64, u8, u16, u32, u64, Deg<f32>], { x: [], y: [] }, [0, 0]);
-rec!("Point3", Point3, [f32, f64, i8, i16, i32, i64, u8, u16, u32, u64, isize, usize, i128, u128], { x: [], y: [], z: [] }, [0, 0, 0]);
+rec!("Point1", Point1, [f32, f64, i8, i16, i32, i64, u8, u16, u32, u64, Matrix2<f64>], { x: [] }, [0]);
+rec!("Point2", Point2, [f32, f64, i8, i16, i32, i64, u8, u16, u32, u64, Deg<f32>, Quaternion<f64>], { x: [], y: [] }, [0, 0]);
+rec!("Point3", Point3, [f32, f64, i8, i16, i32, i64, u8, u16, u32, u64, isize, usize, i128, u128, Vector4<f64>], { x: [], y: [], z: [] }, [0, 0, 0]);
 rec!("Matrix2", Matrix2, [f32, f64, i32, i64, isize, u128, Rad<f32>], { x: [Vector2], y: [Vector2] }, [1, 0, 0, 1]);
 rec!("Matrix3", Matrix3, [f32, f64, i32, i64], { x: [Vector3], y: [Vector3], z: [Vector3] }, [1, 0, 0, 0, 1, 0, 0, 0, 1]);
 rec!("Matrix4", Matrix4, [f32, f64, i32, i64], { x: [Vector4], y: [Vector4], z: [Vector4], w: [Vector4] }, [1, 0, 0, 0, 0, 1, 0, 0, 0, 0, 1, 0, 0, 0, 0, 1]);
